@@ -11,7 +11,7 @@ RULE = ('pop-on programs from an abstract model (per caption: rows in increasing
         'Exhaustive: every (row, indent column, tab offset) x {single, doubled} (960 programs), every basic / '
         'special / extended code x {single, doubled}, every ordered pair of 12 abstract row items on 1- and '
         '2-row captions, every (last row of caption n, first row of caption n+1) pair; random: streams of '
-        '1-3 captions x 1-4 rows x up to 12 items. Expected captions come from a 15x32 reference screen '
+        '1-3 captions x 1-4 rows x up to 12 items, one in five read by a reader object that has read another document before. Expected captions come from a 15x32 reference screen '
         'model. Non-trivial: more than one row, a non-basic item, or doubled mode.')
 ANCHORS = ['pycaption.scc:SCCReader._translate_line', 'pycaption.scc:SCCReader._translate_word',
            'pycaption.scc:SCCReader._translate_command', 'pycaption.scc:SCCReader._translate_characters',
@@ -28,7 +28,7 @@ ANCHORS = ['pycaption.scc:SCCReader._translate_line', 'pycaption.scc:SCCReader._
 THOROUGH_SCALE = 2.5        # random budgets of the thorough tier are multiplied by this
 REQUIRE = {'programs_single': 50, 'programs_doubled': 50, 'captions_compared': 500,
            'captions_multi_row': 50, 'captions_split_by_gap': 20, 'items_ext': 50, 'items_sp': 50,
-           'items_bs': 20, 'items_mid': 50, 'mid_char_probes': 200, 'italic_chars_expected': 100, 'decoder_states_seen': 20}
+           'items_bs': 20, 'items_mid': 50, 'mid_char_probes': 200, 'reads_by_a_reader_object_used_before': 100, 'italic_chars_expected': 100, 'decoder_states_seen': 20}
 EXHAUSTIVE = {'quick': False, 'thorough': False}
 
 ABSTRACT_ITEMS = [['c', 'a'], ['c', 'B'], ['c', ' '], ['c', '.'], ['sp', 7], ['sp', 0], ['ext', 'É'],
@@ -133,7 +133,10 @@ def cases(ctx):
                         yield {'kind': 'full-row', 'prog': _prog([rows], doubled)}
                     idx += 1
     for _ in range(ctx.budget(10000, 400000)):
-        yield {'kind': 'random', 'prog': G.gen_popon(rng, italic_bias=rng.choice([0.0, 0.0, 0.5, 0.9]))}
+        case = {'kind': 'random', 'prog': G.gen_popon(rng, italic_bias=rng.choice([0.0, 0.0, 0.5, 0.9]))}
+        if rng.random() < 0.2:
+            case['prior_doc'] = G.prior_doc(rng)      # the reader object has read another document before
+        yield case
 
 
 def nontrivial(case):
@@ -243,9 +246,10 @@ def check(case, ctx):
                     ctx.count('items_' + it[0])
     exp_groups = expected_captions(lines)
     try:
+        reader = G.reader_for(case, ctx)
         monitor = _StateMonitor.get()
         monitor.begin()
-        cs = SCCReader().read(doc)
+        cs = reader.read(doc)
         ctx.counters['decoder_states_seen'] = max(ctx.counters.get('decoder_states_seen', 0), monitor.end())
     except Exception as e:
         _StateMonitor.get().end()
